@@ -195,17 +195,17 @@ func c06Sha256Hex(b []byte) string {
 }
 
 type c06SignInput struct {
-	lit       c06Literal
-	keyID     string
-	secret    string
-	scopes    []string
-	at        time.Time
-	method    string
-	wirePath  string      // the path exactly as it is written on the request line
-	query     [][2]string // decoded name/value pairs that take part in the signature
-	lines     [][2]string // header lines (Host included)
-	signed    []string    // lower-case names of the signed headers
-	payload   string      // hex hash of the body, or UNSIGNED-PAYLOAD
+	lit      c06Literal
+	keyID    string
+	secret   string
+	scopes   []string
+	at       time.Time
+	method   string
+	wirePath string      // the path exactly as it is written on the request line
+	query    [][2]string // decoded name/value pairs that take part in the signature
+	lines    [][2]string // header lines (Host included)
+	signed   []string    // lower-case names of the signed headers
+	payload  string      // hex hash of the body, or UNSIGNED-PAYLOAD
 }
 
 func (in *c06SignInput) scope() string {
